@@ -1116,7 +1116,21 @@ map_string (svalue_t * arg, int num_arg)
 #endif
 
 #ifdef F_SORT_ARRAY
-static function_to_call_t *sort_array_ftc;
+/* callback descriptors of the sort_array() calls in progress, innermost first.  They live on the heap and are
+ * unlinked by an error handler on the value stack, so that an error caught by an enclosing catch() (e.g. in the
+ * comparison function of an outer sort_array()) puts the outer descriptor back. */
+typedef struct sort_array_ftc_s {
+  function_to_call_t ftc;
+  struct sort_array_ftc_s *prev;
+} sort_array_ftc_t;
+static sort_array_ftc_t *sort_array_ftc;
+
+static void sort_array_error_handler (void) {
+  sort_array_ftc_t *n = sort_array_ftc;
+
+  sort_array_ftc = n->prev;
+  FREE ((char *) n);
+}
 
 #define COMPARE_NUMS(x,y) (x < y ? -1 : (x > y ? 1 : 0))
 
@@ -1249,7 +1263,7 @@ static int sort_array_cmp (svalue_t * p1, svalue_t * p2) {
   push_svalue (p1);
   push_svalue (p2);
 
-  d = call_efun_callback (sort_array_ftc, 2);
+  d = call_efun_callback (&sort_array_ftc->ftc, 2);
 
   if (!d || d->type != T_NUMBER)
     {
@@ -1289,15 +1303,20 @@ f_sort_array (void)
          * We use a global to communicate with the comparison function,
          * so we have to be careful to make sure we can recurse (the
          * callback might call sort_array itself).  For this reason, the
-         * ftc structure is on the stack, and we just keep a pointer
-         * to it in a global, being careful to save and restore the old
-         * value.
+         * ftc structures are kept in a list (see sort_array_ftc above);
+         * the entry is removed here on the normal path and by the error
+         * handler below it on the stack when an error unwinds us.
          */
-        function_to_call_t ftc, *old_ptr;
+        function_to_call_t ftc;
+        sort_array_ftc_t *n;
 
-        old_ptr = sort_array_ftc;
-        sort_array_ftc = &ftc;
-        process_efun_callback (1, &ftc, F_SORT_ARRAY);
+        process_efun_callback (1, &ftc, F_SORT_ARRAY);	/* may raise an error itself */
+        n = ALLOCATE (sort_array_ftc_t, TAG_TEMPORARY, "f_sort_array");
+        n->ftc = ftc;
+        n->prev = sort_array_ftc;
+        sort_array_ftc = n;
+        (++sp)->type = T_ERROR_HANDLER;
+        sp->u.error_handler = sort_array_error_handler;
 
         /* keep the working copy on the stack: an error raised by the
          * callback must not leak it */
@@ -1305,8 +1324,10 @@ f_sort_array (void)
         push_refed_array (tmp);
         quickSort ((char *) tmp->item, tmp->size, sizeof (tmp->item),
                    sort_array_cmp);
-        sp--;
-        sort_array_ftc = old_ptr;
+        sp--;			/* the working copy */
+        sp--;			/* the error handler: not needed, unlink by hand */
+        sort_array_ftc = n->prev;
+        FREE ((char *) n);
         break;
       }
     }
